@@ -105,6 +105,32 @@ let () = iter_lines (fun line ->
   | ["cap"; pol; mc; log] ->
     let bc = two_pow (z log) in
     Printf.printf "%s %s\n" (sz (calc_capacity (z pol) (z mc) bc)) (sz (shift_fn (z pol) (z mc) bc))
+  | "n1" :: n :: _ :: ops when int_of_string n >= 30 ->
+    (* the generated BucketOpen2N2 byte operations (symbolic maxCount = n - 30) *)
+    let m = int_of_string n - 30 in
+    let mc = z (string_of_int m) in
+    let zero = (fun _ -> z "0") in
+    let (st0, sh0) = Gen_Open2N2_ops.pvSetEmpty mc zero zero zero in
+    let st = ref st0 and sh = ref sh0 and hp = ref zero in
+    List.iter (fun o ->
+      let arg = if String.length o > 1 then z (String.sub o 1 (String.length o - 1)) else z "0" in
+      let cnt () = int_of_z (Gen_Open2N2_ops.pvGetCount !st !sh !hp) in
+      match o.[0] with
+      | 'a' -> if not (Gen_Open2N2_ops.coq_IsFull !st !sh !hp) then
+                 let pr = z_of_zarith (Z.logand (Z.shift_right (zarith_of_z arg) 8) (Z.of_int 7)) in
+                 (match Gen_Open2N2_ops.coq_AddCrt mc !st !sh !hp arg (z "4") pr (z "0") with
+                  | GenPrelude.Ok (((_, a), b), c) -> st := a; sh := b; hp := c | _ -> ())
+      | 'r' -> let j = int_of_z arg in
+               if j < cnt () then
+                 (match Gen_Open2N2_ops.coq_Remove mc !st !sh !hp (z (string_of_int (m - 1 - j))) with
+                  | GenPrelude.Ok (((_, a), b), c) -> st := a; sh := b; hp := c | _ -> ())
+      | 'c' -> let (a, b) = Gen_Open2N2_ops.pvSetEmpty mc !st !sh !hp in st := a; sh := b
+      | 'u' -> (match Gen_Open2N2.coq_UpdateMaxProbe !st arg with GenPrelude.Ok (_, a) -> st := a | _ -> ())
+      | _ -> ()) ops;
+    let zi i = z (string_of_int i) in
+    let c = int_of_z (Gen_Open2N2_ops.pvGetCount !st !sh !hp) in
+    print_endline (String.concat " " ([sz (!st (zi 0)); sz (!st (zi 1))] @ List.init m (fun i -> sz (!sh (zi i)))
+      @ List.init m (fun i -> if i >= m - c then sz (!hp (zi i)) else "-")))
   | "n1" :: n :: rv :: ops ->
     (* the generated BucketOpenN1 byte operations, applied to mData as a function Z -> Z *)
     let mc = z n and rev = (rv = "1") in
@@ -134,6 +160,11 @@ let () = iter_lines (fun line ->
        Printf.printf "%s %s\n" (sz st) (sz (Gen_Lim4.pvGetMemPoolIndex st))
      | "4", [v] -> let st = if v = "0" then Gen_LimP.stateNull else if v = "1" then Gen_LimP.stateNullWasFull else z v in
        print_endline (b2s (Gen_LimP.coq_WasFull st))
+     | "6", [hc] ->
+       let show st = Printf.sprintf "%s %s %s" (sz st) (b2s (Gen_One.coq_IsFull st)) (b2s (Gen_One.coq_WasFull st)) in
+       let s1 = (match Gen_One.coq_AddCrt (z "0") (z hc) with GenPrelude.Ok (_, s) -> s | _ -> z "-1") in
+       let s2 = (match Gen_One.coq_Remove s1 (z "0") (z "0") with GenPrelude.Ok (_, s) -> s | _ -> z "-1") in
+       print_endline (show s1 ^ " " ^ show s2 ^ " " ^ show (Gen_One.coq_Clear s2))
      | "5", [c] -> print_endline (sz (Gen_LimP.pvGetMemPoolIndexOf (z c)))
      | _ -> print_endline "?kf")
   | "o8" :: sh :: bytes ->
